@@ -80,24 +80,33 @@ def main():
         print(*detect(sys.argv[2], sys.argv[3] if len(sys.argv) > 3 else None,
                       os.environ.get('VERIF_TIER', 'quick')))
     elif cmd == 'all':
+        from multiprocessing.pool import ThreadPool
         base = os.path.join(ROOT, 'seeded')
-        rows = []
+        dirs = []
         for pid in sorted(os.listdir(base)):
             pd = os.path.join(base, pid)
             if not os.path.isdir(pd):
                 continue
             for name in sorted(os.listdir(pd)):
                 d = os.path.join(pd, name)
-                if not os.path.exists(os.path.join(d, 'patch.diff')):
-                    continue
-                try:
-                    ok, vi = verify(d)
-                    st, info = detect(d)
-                except Exception as e:
-                    ok, vi, st, info = False, str(e), 'ERROR', ''
-                rows.append((pid, name, 'valid' if ok else 'INVALID', st))
-                print(pid, name, 'valid' if ok else 'INVALID ' + vi, st,
-                      info[:160], flush=True)
+                if os.path.exists(os.path.join(d, 'patch.diff')):
+                    dirs.append((pid, name, d))
+
+        def one(item):
+            pid, name, d = item
+            try:
+                ok, vi = verify(d)
+                st, info = detect(d)
+            except Exception as e:
+                ok, vi, st, info = False, str(e), 'ERROR', ''
+            print(pid, name, 'valid' if ok else 'INVALID ' + vi, st,
+                  info[:160], flush=True)
+            kind = info[info.index('['):][:120] if '[' in info else ''
+            return {'property': pid, 'seed': name,
+                    'demo': 'valid' if ok else 'INVALID', 'check': st,
+                    'violation': kind}
+        rows = ThreadPool(int(os.environ.get('SEEDED_JOBS', '5'))).map(
+            one, dirs)
         json.dump(rows, open(os.path.join(base, 'results.json'), 'w'),
                   indent=1)
 
